@@ -15,7 +15,7 @@ RULE = ("(a) npy writer and reader vs the proved byte-level model: shapes with 1
         "bit patterns; text writer/reader vs the model; (c) on the implementation: text round trip |y - x| <= 0.5*10^-p + "
         "0.5 ulp(y) for finite x, specials survive; text -> npy -> text reproduces the text when the printed values have <= "
         "15 significant digits; (d) on the binary: output of create|view|fold in both formats, to a file and to a pipe, is "
-        "accepted by view|fold|stat with auto-detection. non-trivial = value not 0 / shape with >= 2 axes")
+        "accepted by view|fold|stat with auto-detection. non-trivial = value not 0 / shape with >= 2 axes; spectra of 65537 and 2^20+1 entries through view, text and npy")
 
 
 def fmt(l):
@@ -230,6 +230,23 @@ def check(rep, tier, seed):
             rep.fail(kind="property-oracle", cls="reads-what-it-writes", case=lab, argv=["sfs"] + job[0], stdin_hex=job[1].hex(),
                      observed={"rc": rc, "stderr": se.decode(errors="replace")[-300:]}, expected="accepted with auto-detected format",
                      detail="output written by the tool is not accepted by the tool")
+    # spectra larger than any block a writer or reader might work in (2^16 and 2^20 values and a little more): `view` without
+    # options reproduces its input to the printed precision - every value, separated from its neighbours - and the chain
+    # through npy gives the same bytes as the single invocation
+    from common import run_cli_many as _rcm_big
+    for nbig, shp in ((2**20 + 1, [2**20 + 1]), (65537, [65537])) if True else ():
+        vals_big = [str((7 * i + i // 1000) % 10) for i in range(nbig)]
+        txt_big = ("#SHAPE=<%s>\n%s\n" % ("/".join(map(str, shp)), " ".join(vals_big))).encode()
+        (rc1, so1, se1), (rc2, so2, se2) = _rcm_big([(["view", "--precision", "0"], txt_big), (["view", "-O", "npy"], txt_big)], timeout=600)
+        (rc3, so3, se3), = _rcm_big([(["view", "--precision", "0"], so2)], timeout=600)
+        rep.count("roundtrip-large", "shape %s" % shp, True, n=3)
+        if rc1 != 0 or so1 != txt_big or rc2 != 0 or rc3 != 0 or so3 != txt_big:
+            got = so1 if (rc1 != 0 or so1 != txt_big) else so3
+            k_ = next((i for i, (x, y) in enumerate(zip(got, txt_big)) if x != y), min(len(got), len(txt_big)))
+            rep.fail(kind="property-oracle", cls="reads-what-it-writes:large", case="view --precision 0 on a spectrum of shape %s (%d integer entries)" % (shp, nbig), argv=["sfs", "view", "--precision", "0"],
+                     observed={"rc": [rc1, rc2, rc3], "bytes": len(got), "first difference at byte": k_, "there": got[max(0, k_ - 20):k_ + 20].decode(errors="replace")},
+                     expected={"bytes": len(txt_big), "there": txt_big[max(0, k_ - 20):k_ + 20].decode()},
+                     detail="a large spectrum does not come back from `view` (directly or through npy) as it went in (replay: values (7*i + i//1000) % 10 for i in range(n), one line)")
     rep.assumptions += ["print_fixed / parse_f64 are executable stand-ins for Rust's `{:.p}` and f64::from_str: compared on every run (exact), "
                         "theorems about text values are about the stand-ins", "NaN payload through text is not preserved (NaN -> 'NaN' -> canonical NaN)"]
 
